@@ -114,7 +114,10 @@ type Offering struct {
 	Rid       string `json:"rid"`  // "" = none
 	Rcap      int    `json:"rcap"` // reservation capacity
 	CPUOv     int    `json:"cpuOv"`
-	MemOv     int    `json:"memOv"` // capacity overrides (0 = none)
+	MemOv     int    `json:"memOv"`  // capacity overrides (0 = none)
+	PodsOv    int    `json:"podsOv"` // capacity override of the pods resource (0 = none)
+	OhCPU     int    `json:"ohCpu"`  // OVERHEAD override: replaces the type's total cpu overhead for this offering (0 = none)
+	OhMem     int    `json:"ohMem"`  // overhead override for memory (0 = none)
 }
 
 // Type is an instance type. Labels: extra single-valued requirement labels (short keys; arch/os
